@@ -397,6 +397,25 @@ fn d16_node_with_maximal_index_round_trips() {
     }
 }
 
+/// D25 (C11, found by a defect-hunting sub-agent in round 3): decoding the encoding of a node gives
+/// the node back — also for the blank nodes the crate builds itself.  `Node::new_blank` filled the
+/// fields that are not on the wire differently from `Node::new` (parent 0 for every index, no data
+/// vector), so a blank node was not equal to its own decoding and reported 0 as its parent.
+#[test]
+fn d25_blank_node_equals_its_decoding() {
+    use compact_encoding::CompactEncoding;
+    use hypercore::Node;
+    for index in [0u64, 1, 2, 3, 7, 252, 253, 65535, 65536, (1u64 << 32) - 1, 1u64 << 32, u64::MAX] {
+        let node = Node::new_blank(index);
+        let mut out = vec![0u8; node.encoded_size().unwrap()];
+        node.encode(&mut out).unwrap();
+        let (back, rest) = Node::decode(&out).unwrap();
+        assert!(rest.is_empty());
+        assert_eq!(back, node, "blank node {index}");
+        assert_eq!(node, Node::new(index, vec![0; 32], 0), "blank node {index} vs Node::new");
+    }
+}
+
 /// D17 (C06 "a store written by the JavaScript implementation opens and is operated on", C11; the
 /// 2-byte hash was noticed early and wrongly judged unreachable): `Node::new_blank` built its hash as
 /// `vec![0, 32]` (two bytes) instead of 32 zero bytes.  A blank node announces 34 bytes and cannot be
